@@ -529,6 +529,10 @@ func propC17(p *Prog, r *Report) {
 	c04WhoMay(p, r, "C17.e")
 	r.Rule("C17.g", "canonical roots: the directory registry cleans every configured root before it is used as a key, stored, or becomes a directory's Root, so that ParseDir(Dir.Path()) gives the same Root back")
 	c17RootsCanonical(p, r, "C17.g")
+	r.Rule("C17.j", "only configured roots are candidates: every disk.Usage call of repository/dir.Get takes its root from the loop over the configured roots")
+	c17UsageOfConfiguredRoots(p, r, "C17.j")
+	r.Rule("C17.k", "a directory that regained room is used again: dir.Add answers 'already active' only after looking the directory up in the registry")
+	c17AddConsultsRegistry(p, r, "C17.k")
 	r.Rule("C17.i", "free space is measured, not remembered (= C10.j)")
 	c10FreshMeasurements(p, r, "C17.i", "free")
 	r.Rule("C17.h", "the registry only names directories that exist: dir.Create updates the registry only after MkdirAll succeeded")
